@@ -299,7 +299,7 @@ Qed.
    - byte / pushbytes with ONE spelling the assembler's literal reader accepts (quoted string with escapes, 0x hex,
      base32(..), base64(..), or the two-token forms), free of line feeds;
    - addr with a 58-character base32 word; method with a quoted signature found in the selector table;
-   - b / bz / bnz / callsub with a label word;
+   - b / bz / bnz with a label reference or a label word, callsub with a label word (the resolved subroutine label);
    - every other opcode except the constant blocks, pushints/pushbytess, switch/match and frame_dig/frame_bury:
      numbers and names as arguments. *)
 Definition printable_instr (msel : list (string * bytes)) (i : instr) : bool :=
@@ -308,7 +308,7 @@ Definition printable_instr (msel : list (string * bytes)) (i : instr) : bool :=
   | KInt, [AInt n] => (n <? 18446744073709551616)%N
   | KInt, [AStr s] => word s && is_some (parse_int_arg s)
   | KByte, [AStr s] =>
-      no_nlb s && negb (String.eqb s "") &&
+      no_nlb s &&
       match parse_bytes_arg (tokens_of_line s) with Some (_, []) => true | _ => false end
   | KAddr, [AStr s] => word s && (String.length s =? 58)%nat && is_some (decode_base32 s)
   | KMethod, [AStr s] =>
@@ -317,7 +317,7 @@ Definition printable_instr (msel : list (string * bytes)) (i : instr) : bool :=
       | Some sig => is_some (alookup String.eqb (string_of_bytes sig) msel)
       | None => false
       end
-  | KBranch, [ALbl l] => word l
+  | KBranch, [ALbl l] => word l && is_branch (i_op i)
   | KBranch, [AStr l] => word l
   | KGen, args => forallb gen_arg args
   | _, _ => false
@@ -388,3 +388,282 @@ Proof.
   subst rest. cbn [forallb]. destruct (String.eqb tk ";") eqn:Et; [|reflexivity].
   apply String.eqb_eq in Et. subst tk. vm_compute in H. discriminate H.
 Qed.
+
+(* ---------------------------------------------------------------------------------------------- *)
+(* 4. one instruction, one line, one statement                                                      *)
+(* ---------------------------------------------------------------------------------------------- *)
+Lemma generic_dec n : generic_imm (N_to_dec n) = IInt n.
+Proof. unfold generic_imm. now rewrite parse_uint_dec. Qed.
+
+Lemma gen_args_ok msel o : kind_of o = KGen -> forall args, forallb gen_arg args = true ->
+  exists parts, assemble_args args = Some parts /\ forallb word parts = true /\
+                imms_of_args msel o args = Some (map generic_imm parts).
+Proof.
+  intros K. induction args as [|a t IH]; intros H.
+  - exists []. repeat split.
+  - cbn [forallb] in H. apply andb_true_iff in H as [Ha Ht]. destruct (IH Ht) as (parts & A & W & I).
+    destruct a as [n|s|l|u|sb]; try discriminate Ha.
+    + exists (N_to_dec n :: parts). cbn [assemble_args assemble_arg imms_of_args imm_of_arg forallb map].
+      rewrite A, I, W, dec_word, generic_dec. repeat split.
+    + cbn [gen_arg] in Ha. apply andb_true_iff in Ha as [Hw Hn].
+      exists (s :: parts). cbn [assemble_args assemble_arg imms_of_args forallb map].
+      rewrite A, I, W, Hw, (imm_gen_str msel o s K). repeat split.
+      unfold generic_imm. destruct (parse_uint s); [discriminate Hn|reflexivity].
+Qed.
+
+Definition nosemi (ts : list string) : bool := forallb (fun t => negb (String.eqb t ";")) ts.
+
+Lemma wrap msel o args line ts imms :
+  is_comment o = false -> imms_of_args msel o args = Some imms ->
+  tokens_of_line line = ts -> nosemi ts = true -> parse_stmt msel ts = mkS o imms ->
+  exists ss, stmt_of msel (COp (mkI o args)) = Some ss /\ line_stmts msel line = Some ss.
+Proof.
+  intros C I T S Pr. exists [SInstr (mkP o imms)]. split.
+  - cbn [stmt_of i_op i_args]. rewrite C, I. reflexivity.
+  - exact (line_one msel line ts _ T S Pr).
+Qed.
+
+Lemma two_words a b : concat_sep " " [a; b] = (a ++ " " ++ b)%string.
+Proof. reflexivity. Qed.
+
+Lemma no_nl_space : no_nl (list_ascii_of_string " ").
+Proof. constructor; [|constructor]. intros E. discriminate E. Qed.
+
+Lemma comment_parts_no_nl : forall args parts,
+  forallb (fun a => match a with AStr s => no_nlb s | _ => false end) args = true ->
+  assemble_args args = Some parts ->
+  no_nl (list_ascii_of_string (concat_sep " " parts)).
+Proof.
+  induction args as [|a t IH]; intros parts H A.
+  - injection A as <-. constructor.
+  - cbn [forallb] in H. apply andb_true_iff in H as [Ha Ht].
+    destruct a as [n|s|l|u|sb]; try discriminate Ha.
+    cbn [assemble_args assemble_arg] in A. destruct (assemble_args t) as [r|] eqn:Er; [|discriminate A].
+    injection A as <-. specialize (IH r Ht eq_refl).
+    destruct r as [|y r']; [cbn [concat_sep]; apply no_nlb_spec; exact Ha|].
+    change (concat_sep " " (s :: y :: r')) with (s ++ " " ++ concat_sep " " (y :: r'))%string.
+    rewrite !los_app. apply no_nl_app; [apply no_nlb_spec; exact Ha|]. apply no_nl_app; [apply no_nl_space|exact IH].
+Qed.
+
+Lemma comment_args_assemble : forall args,
+  forallb (fun a => match a with AStr s => no_nlb s | _ => false end) args = true ->
+  exists parts, assemble_args args = Some parts.
+Proof.
+  induction args as [|a t IH]; intros H; [eexists; reflexivity|].
+  cbn [forallb] in H. apply andb_true_iff in H as [Ha Ht]. destruct (IH Ht) as [r Er].
+  destruct a as [n|s|l|u|sb]; try discriminate Ha. exists (s :: r). cbn [assemble_args assemble_arg]. now rewrite Er.
+Qed.
+
+Theorem instr_line msel i : printable_instr msel i = true ->
+  exists line, assemble_instr i = Some line /\ no_nl (list_ascii_of_string line) /\
+  exists ss, stmt_of msel (COp i) = Some ss /\ line_stmts msel line = Some ss.
+Proof.
+  destruct i as [o args]. unfold printable_instr, assemble_instr. cbn [i_op i_args].
+  destruct (kind_of o) eqn:K; intros H.
+  - (* comment *)
+    assert (Eo : o = O_comment) by (destruct o; try discriminate K; reflexivity). subst o.
+    destruct (comment_args_assemble args H) as [parts A]. rewrite A.
+    eexists. split; [reflexivity|]. split.
+    + change (opc_name O_comment) with "//".
+      destruct parts as [|y r]; [cbn; repeat constructor; intros E; discriminate E|].
+      change (concat_sep " " ("//" :: y :: r)) with ("//" ++ " " ++ concat_sep " " (y :: r))%string.
+      rewrite !los_app. apply no_nl_app; [repeat constructor; intros E; discriminate E|].
+      apply no_nl_app; [apply no_nl_space|]. exact (comment_parts_no_nl args (y :: r) H A).
+    + exists []. split; [reflexivity|].
+      assert (T : tokens_of_line (concat_sep " " (opc_name O_comment :: parts)) = []).
+      { change (opc_name O_comment) with "//". destruct parts as [|y r]; [reflexivity|].
+        change (concat_sep " " ("//" :: y :: r)) with ("//" ++ (" " ++ concat_sep " " (y :: r)))%string.
+        apply tokens_comment_line. }
+      unfold line_stmts. rewrite T. reflexivity.
+  - (* int *)
+    pose proof (kind_not_comment o ltac:(rewrite K; discriminate)) as C.
+    pose proof (opc_name_word o C) as Wn.
+    destruct args as [|[n|s|l|u|sb] [|a2 r]]; try discriminate H.
+    + apply N.ltb_lt in H. cbn [assemble_args assemble_arg].
+      assert (W : forallb word [opc_name o; N_to_dec n] = true) by (cbn [forallb]; now rewrite Wn, dec_word).
+      eexists. split; [reflexivity|]. split; [apply words_no_nl; exact W|].
+      apply (wrap msel o [AInt n] _ [opc_name o; N_to_dec n] [IInt n] C eq_refl).
+      * apply tokens_words; [discriminate|exact W].
+      * apply words_no_semi. exact W.
+      * rewrite (parse_int msel o _ K), (parse_int_arg_dec n H). reflexivity.
+    + apply andb_true_iff in H as [Hw Hp]. destruct (parse_int_arg s) as [n|] eqn:Pn; [|discriminate Hp].
+      cbn [assemble_args assemble_arg].
+      assert (W : forallb word [opc_name o; s] = true) by (cbn [forallb]; now rewrite Wn, Hw).
+      eexists. split; [reflexivity|]. split; [apply words_no_nl; exact W|].
+      apply (wrap msel o [AStr s] _ [opc_name o; s] [IInt n] C).
+      * cbn [imms_of_args]. rewrite (imm_int_str msel o s K), Pn. reflexivity.
+      * apply tokens_words; [discriminate|exact W].
+      * apply words_no_semi. exact W.
+      * rewrite (parse_int msel o _ K), Pn. reflexivity.
+  - (* byte *)
+    pose proof (kind_not_comment o ltac:(rewrite K; discriminate)) as C.
+    pose proof (opc_name_word o C) as Wn.
+    destruct args as [|[n|s|l|u|sb] [|a2 r]]; try discriminate H.
+    apply andb_true_iff in H as [Hn Hp].
+    destruct (parse_bytes_arg (tokens_of_line s)) as [[b rest]|] eqn:Pb; [|discriminate Hp].
+    destruct rest; [|discriminate Hp].
+    cbn [assemble_args assemble_arg]. rewrite two_words.
+    eexists. split; [reflexivity|]. split.
+    { rewrite !los_app. apply no_nl_app; [apply word_no_nl; exact Wn|].
+      apply no_nl_app; [apply no_nl_space|apply no_nlb_spec; exact Hn]. }
+    apply (wrap msel o [AStr s] _ (opc_name o :: tokens_of_line s) [IBytes b] C).
+    + cbn [imms_of_args]. rewrite (imm_byte_str msel o s K), Pb. reflexivity.
+    + apply tokens_cons. exact Wn.
+    + unfold nosemi. cbn [forallb]. rewrite (word_not_semi _ Wn). exact (parse_bytes_arg_no_semi _ _ Pb).
+    + rewrite (parse_byte msel o _ K), Pb. reflexivity.
+  - (* addr *)
+    pose proof (kind_not_comment o ltac:(rewrite K; discriminate)) as C.
+    pose proof (opc_name_word o C) as Wn.
+    destruct args as [|[n|s|l|u|sb] [|a2 r]]; try discriminate H.
+    apply andb_true_iff in H as [H Hd]. apply andb_true_iff in H as [Hw Hl].
+    destruct (decode_base32 s) as [b|] eqn:Db; [|discriminate Hd].
+    cbn [assemble_args assemble_arg].
+    assert (W : forallb word [opc_name o; s] = true) by (cbn [forallb]; now rewrite Wn, Hw).
+    eexists. split; [reflexivity|]. split; [apply words_no_nl; exact W|].
+    apply (wrap msel o [AStr s] _ [opc_name o; s] [IBytes (firstn 32 b)] C).
+    + cbn [imms_of_args]. rewrite (imm_addr_str msel o s K), Db. reflexivity.
+    + apply tokens_words; [discriminate|exact W].
+    + apply words_no_semi. exact W.
+    + rewrite (parse_addr msel o _ K), Hl, Db. reflexivity.
+  - (* method *)
+    pose proof (kind_not_comment o ltac:(rewrite K; discriminate)) as C.
+    pose proof (opc_name_word o C) as Wn.
+    destruct args as [|[n|s|l|u|sb] [|a2 r]]; try discriminate H.
+    apply andb_true_iff in H as [H Hp]. apply andb_true_iff in H as [Hn Ht].
+    apply strs_eqb_eq in Ht.
+    destruct (parse_string_literal s) as [sig|] eqn:Ps; [|discriminate Hp].
+    destruct (alookup String.eqb (string_of_bytes sig) msel) as [sel|] eqn:Al; [|discriminate Hp].
+    cbn [assemble_args assemble_arg]. rewrite two_words.
+    eexists. split; [reflexivity|]. split.
+    { rewrite !los_app. apply no_nl_app; [apply word_no_nl; exact Wn|].
+      apply no_nl_app; [apply no_nl_space|apply no_nlb_spec; exact Hn]. }
+    apply (wrap msel o [AStr s] _ [opc_name o; s] [IBytes sel] C).
+    + cbn [imms_of_args]. rewrite (imm_method_str msel o s K), Ps, Al. reflexivity.
+    + rewrite tokens_cons by exact Wn. now rewrite Ht.
+    + unfold nosemi. cbn [forallb]. rewrite (word_not_semi _ Wn).
+      destruct (String.eqb s ";") eqn:Es; [|reflexivity].
+      apply String.eqb_eq in Es. subst s. vm_compute in Ps. discriminate Ps.
+    + rewrite (parse_method msel o _ K), Ps, Al. reflexivity.
+  - (* branch *)
+    pose proof (kind_not_comment o ltac:(rewrite K; discriminate)) as C.
+    pose proof (opc_name_word o C) as Wn.
+    destruct args as [|[n|s|l|u|sb] [|a2 r]]; try discriminate H.
+    + cbn [assemble_args assemble_arg].
+      assert (W : forallb word [opc_name o; s] = true) by (cbn [forallb]; now rewrite Wn, H).
+      eexists. split; [reflexivity|]. split; [apply words_no_nl; exact W|].
+      apply (wrap msel o [AStr s] _ [opc_name o; s] [IName s] C).
+      * cbn [imms_of_args]. rewrite (imm_branch_str msel o s K). reflexivity.
+      * apply tokens_words; [discriminate|exact W].
+      * apply words_no_semi. exact W.
+      * apply (parse_branch msel o _ K).
+    + apply andb_true_iff in H as [H _]. cbn [assemble_args assemble_arg].
+      assert (W : forallb word [opc_name o; l] = true) by (cbn [forallb]; now rewrite Wn, H).
+      eexists. split; [reflexivity|]. split; [apply words_no_nl; exact W|].
+      apply (wrap msel o [ALbl l] _ [opc_name o; l] [IName l] C eq_refl).
+      * apply tokens_words; [discriminate|exact W].
+      * apply words_no_semi. exact W.
+      * apply (parse_branch msel o _ K).
+  - discriminate H.
+  - (* generic *)
+    pose proof (kind_not_comment o ltac:(rewrite K; discriminate)) as C.
+    pose proof (opc_name_word o C) as Wn.
+    destruct (gen_args_ok msel o K args H) as (parts & A & Wp & I). rewrite A.
+    assert (W : forallb word (opc_name o :: parts) = true) by (cbn [forallb]; now rewrite Wn, Wp).
+    eexists. split; [reflexivity|]. split; [apply words_no_nl; exact W|].
+    apply (wrap msel o args _ (opc_name o :: parts) (map generic_imm parts) C I).
+    + apply tokens_words; [discriminate|exact W].
+    + apply words_no_semi. exact W.
+    + apply (parse_gen msel o _ K).
+Qed.
+
+(* ---------------------------------------------------------------------------------------------- *)
+(* 5. components, programs                                                                          *)
+(* ---------------------------------------------------------------------------------------------- *)
+Lemma pragma_line v : ("#pragma version " ++ N_to_dec v)%string = concat_sep " " ["#pragma"; "version"; N_to_dec v].
+Proof. reflexivity. Qed.
+
+Theorem comp_line msel c : printable_comp msel c = true ->
+  exists line, assemble_comp c = Some line /\ no_nl (list_ascii_of_string line) /\
+  exists ss, stmt_of msel c = Some ss /\ line_stmts msel line = Some ss.
+Proof.
+  destruct c as [i|l [cm|]|v]; cbn [printable_comp assemble_comp]; intros H.
+  - apply instr_line. exact H.
+  - discriminate H.
+  - apply andb_true_iff in H as [Hne Hc]. apply negb_true_iff in Hne.
+    assert (Hl : l <> ""%string) by (intros ->; discriminate Hne).
+    destruct (label_line_statement msel l Hl Hc) as [T Pr].
+    eexists. split; [reflexivity|]. split.
+    { rewrite los_app. apply no_nl_app; [apply forallb_label_no_nl; exact Hc|].
+      constructor; [|constructor]. intros E. discriminate E. }
+    exists [SLabel l]. split; [reflexivity|].
+    apply (line_one msel _ _ (Some (SLabel l)) T); [|exact Pr].
+    cbn [forallb]. destruct (String.eqb (l ++ ":") ";") eqn:E; [|reflexivity].
+    apply String.eqb_eq in E. destruct l as [|a [|b l']]; [congruence|discriminate E|discriminate E].
+  - eexists. split; [reflexivity|]. rewrite pragma_line.
+    assert (W : forallb word ["#pragma"; "version"; N_to_dec v] = true).
+    { cbn [forallb]. rewrite dec_word. reflexivity. }
+    split; [apply words_no_nl; exact W|].
+    exists [SPragma v]. split; [reflexivity|].
+    apply (line_one msel _ ["#pragma"; "version"; N_to_dec v] (Some (SPragma v))).
+    + apply tokens_words; [discriminate|exact W].
+    + apply words_no_semi. exact W.
+    + cbn -[N_of_dec N_to_dec]. rewrite N_of_dec_to_dec. reflexivity.
+Qed.
+
+Lemma parse_stmts_app msel : forall a b,
+  parse_stmts msel (a ++ b) =
+  match parse_stmts msel a, parse_stmts msel b with Some x, Some y => Some (x ++ y) | _, _ => None end.
+Proof.
+  induction a as [|ts a IH]; intros b.
+  - cbn [app parse_stmts]. destruct (parse_stmts msel b); reflexivity.
+  - cbn [app parse_stmts]. rewrite IH.
+    destruct (parse_stmt msel ts) as [[s|]|]; destruct (parse_stmts msel a); destruct (parse_stmts msel b); reflexivity.
+Qed.
+
+Definition lines_stmts (msel : list (string * bytes)) (lines : list string) : option (list stmt) :=
+  parse_stmts msel (flat_map (fun ln => split_semis (tokens_of_line ln) []) lines).
+
+Theorem lines_roundtrip msel : forall code, printable msel code = true ->
+  exists lines ss,
+    assemble_all code = Some lines /\ Forall (fun ln => no_nl (list_ascii_of_string ln)) lines /\
+    List.length lines = List.length code /\
+    stmts_of msel code = Some ss /\ lines_stmts msel lines = Some ss.
+Proof.
+  induction code as [|c t IH]; intros H.
+  - exists [], []. repeat split. constructor.
+  - unfold printable in H. cbn [forallb] in H. apply andb_true_iff in H as [Hc Ht].
+    destruct (IH Ht) as (lines & ss & A & N & L & S & P).
+    destruct (comp_line msel c Hc) as (line & Ac & Nc & s1 & Sc & Pc).
+    exists (line :: lines), (s1 ++ ss). cbn [assemble_all stmts_of]. rewrite Ac, A, Sc, S.
+    split; [reflexivity|]. split; [constructor; assumption|]. split; [cbn [List.length]; now rewrite L|].
+    split; [reflexivity|].
+    unfold lines_stmts. cbn [flat_map]. rewrite parse_stmts_app.
+    unfold line_stmts in Pc. rewrite Pc. unfold lines_stmts in P. rewrite P. reflexivity.
+Qed.
+
+(* the program text: lines joined by line feeds *)
+Definition program_text (lines : list string) : string := join_nl lines.
+
+Theorem text_roundtrip msel code lines :
+  printable msel code = true -> code <> [] -> assemble_all code = Some lines ->
+  exists ss, stmts_of msel code = Some ss /\ statements_of_text msel (program_text lines) = Some ss.
+Proof.
+  intros H Hne A. destruct (lines_roundtrip msel code H) as (lines' & ss & A' & N & L & S & P).
+  rewrite A in A'. injection A' as <-.
+  exists ss. split; [exact S|].
+  unfold statements_of_text, program_text. rewrite split_lines_join; [exact P| |exact N].
+  intros E. subst lines. destruct code; [congruence|discriminate L].
+Qed.
+
+(* the assembler's program for the text is the linked program of the list *)
+Corollary text_links msel code lines :
+  printable msel code = true -> code <> [] -> assemble_all code = Some lines ->
+  parse_program msel (program_text lines) = link msel code.
+Proof.
+  intros H Hne A. destruct (text_roundtrip msel code lines H Hne A) as (ss & S & T).
+  unfold parse_program, link. rewrite T, S. reflexivity.
+Qed.
+
+(* printable lists always assemble *)
+Corollary printable_assembles msel code : printable msel code = true -> exists lines, assemble_all code = Some lines.
+Proof. intros H. destruct (lines_roundtrip msel code H) as (lines & ss & A & _). exists lines. exact A. Qed.
